@@ -14,7 +14,7 @@ variable (lower : String → String)
 
 /-- what one event does to the (creation time, stored TTL) of the cached record of identity `q`, when no cache-flush record of
 `q`'s name/type/class arrives (pointer records are shared records) -/
-def trackStep (q : Rec) (st : Option (Ms × Nat)) : Event → Option (Ms × Nat)
+def trackStep (q : Rec) (st : Option (Int × Nat)) : Event → Option (Int × Nat)
   | .datagram now recs =>
     match st with
     | some x =>
@@ -29,9 +29,9 @@ def trackStep (q : Rec) (st : Option (Ms × Nat)) : Event → Option (Ms × Nat)
     | none => none
 
 /-- the life of `q`'s cached record after a history, from an empty cache -/
-def track (q : Rec) (evs : List Event) : Option (Ms × Nat) := evs.foldl (trackStep lower q) none
+def track (q : Rec) (evs : List Event) : Option (Int × Nat) := evs.foldl (trackStep lower q) none
 
-def life (e : Rec) : Ms × Nat := (e.created, e.ttl)
+def life (e : Rec) : Int × Nat := (e.created, e.ttl)
 
 /-- no event of the history carries a cache-flush record of `q`'s name / type / class -/
 def NoFlush (q : Rec) (evs : List Event) : Prop :=
@@ -173,7 +173,7 @@ variable (lower : String → String) (possible : String → List String)
 browser created at `t0` after the history `pre`, then `evs`: the instance `a` of a browsed type `t` is reported (Added, not since
 Removed) exactly when the last datagram of `pre ++ [purge t0] ++ evs` that changed the pointer record's life left it alive and no
 purge at or after its expiry followed -/
-theorem live_eq_track (types : List String) (pre : List Event) (t0 : Ms) (evs : List Event)
+theorem live_eq_track (types : List String) (pre : List Event) (t0 : Int) (evs : List Event)
     (hwf : WFHistory lower possible types pre evs) (t : String) (ht : t ∈ types) (a : String)
     (hnf : NoFlush lower (ptrRec t a) (pre ++ [.purge t0] ++ evs)) :
     reportedLive lower (browserRunFrom lower possible pre t0 types evs).batches t a
@@ -186,7 +186,7 @@ end
 
 /-! ### the link level -/
 
-def evTime : Event → Ms
+def evTime : Event → Int
   | .datagram now _ => now
   | .purge now => now
 
@@ -267,5 +267,334 @@ theorem K5_of_cacheRuns (tr : Link.Trace) (endT : Int) (hruns : ∀ x ∈ Link.b
       have hsb : (s.ty == x.2.ty) = false := by simp [hs]
       rw [hsb, hlive]
       simp
+
+/-! ### the `cache` clause of `CacheRun` from finer hypotheses
+
+`scan` reads off a history what the link model looks at — the last datagram with a copy of the pointer record, its TTL and arrival
+time — plus one bit: has a purge at or after its expiry happened since.  `track_scan` relates it to `track`; the two flag lemmas
+relate the bit to the times of the purges. -/
+
+section
+variable (lower : String → String)
+
+def scanStep (q : Rec) (st : Option (Nat × Int × Bool)) : Event → Option (Nat × Int × Bool)
+  | .datagram now recs =>
+    match copiesOf lower recs q with
+    | [] => st
+    | r :: _ => some (r.ttl, now, false)
+  | .purge now =>
+    st.map fun x => (x.1, x.2.1, x.2.2 || (decide (0 < x.1) && decide (x.2.1 + 1000 * (storedTtl 12 x.1 : Int) ≤ now)))
+
+def scan (q : Rec) (evs : List Event) : Option (Nat × Int × Bool) := evs.foldl (scanStep lower q) none
+
+/-- the record's life as `scan` sees it -/
+def decode : Option (Nat × Int × Bool) → Option (Int × Nat)
+  | some (ttl, t, p) => if 0 < ttl ∧ p = false then some (t, storedTtl 12 ttl) else none
+  | none => none
+
+/-- at most one copy of the pointer record per datagram -/
+def OneCopy (q : Rec) (evs : List Event) : Prop :=
+  ∀ ev ∈ evs, match ev with
+    | .datagram _ recs => (copiesOf lower recs q).length ≤ 1
+    | .purge _ => True
+
+variable {lower}
+
+theorem copies_type {q : Rec} {recs : List Rec} {r : Rec} (h : r ∈ copiesOf lower recs q) : r.type = q.type := by
+  unfold copiesOf at h
+  rw [List.mem_filter] at h
+  exact ident_type lower (of_decide_eq_true h.2)
+
+theorem step_decode (q : Rec) (hq : q.type = 12) (st : Option (Nat × Int × Bool)) (ev : Event)
+    (hone : match ev with
+      | .datagram _ recs => (copiesOf lower recs q).length ≤ 1
+      | .purge _ => True) :
+    trackStep lower q (decode st) ev = decode (scanStep lower q st ev) := by
+  cases ev with
+  | datagram now recs =>
+    simp only [] at hone
+    cases hc : copiesOf lower recs q with
+    | nil =>
+      have hg : hasGoodbye lower recs q = false := by simp [hasGoodbye, hc]
+      have hl : lastLive lower recs q = none := by simp [lastLive, hc]
+      simp only [scanStep, hc, trackStep, hg, hl, Bool.false_eq_true, if_false, Option.map_none]
+      cases decode st <;> rfl
+    | cons r rest =>
+      have hrest : rest = [] := by
+        rw [hc] at hone
+        simp only [List.length_cons] at hone
+        exact List.eq_nil_of_length_eq_zero (by omega)
+      subst hrest
+      have hrt : r.type = 12 := by rw [← hq]; exact copies_type (by rw [hc]; simp)
+      simp only [scanStep, hc]
+      generalize decode st = ds
+      simp only [trackStep]
+      by_cases h0 : r.ttl = 0
+      · have hg : hasGoodbye lower recs q = true := by simp [hasGoodbye, hc, h0]
+        have hl : lastLive lower recs q = none := by simp [lastLive, hc, h0]
+        simp only [hg, hl, if_true, Option.map_none, decode, h0, Nat.lt_irrefl, false_and, if_false]
+        cases ds <;> rfl
+      · have hg : hasGoodbye lower recs q = false := by simp [hasGoodbye, hc, h0]
+        have hl : lastLive lower recs q = some r := by simp [lastLive, hc, h0]
+        have hpos : 0 < r.ttl := Nat.pos_of_ne_zero h0
+        simp only [hg, hl, Bool.false_eq_true, if_false, Option.map_some, decode, hpos, true_and, if_true, hrt]
+        cases ds <;> rfl
+  | purge now =>
+    cases st with
+    | none => rfl
+    | some x =>
+      obtain ⟨ttl, t, p⟩ := x
+      simp only [scanStep, Option.map_some, decode]
+      by_cases hcond : 0 < ttl ∧ p = false
+      · obtain ⟨hpos, hp⟩ := hcond
+        subst hp
+        simp only [hpos, true_and, if_true, trackStep, Bool.false_or, decide_true, Bool.true_and]
+        by_cases hx : t + 1000 * (storedTtl 12 ttl : Int) ≤ now
+        · simp [hx]
+        · simp [hx]
+      · rw [if_neg hcond]
+        simp only [trackStep]
+        by_cases hpos : 0 < ttl
+        · have hp : p = true := by
+            cases p with
+            | true => rfl
+            | false => exact absurd ⟨hpos, rfl⟩ hcond
+          subst hp
+          simp
+        · simp [hpos]
+
+theorem foldl_decode (q : Rec) (hq : q.type = 12) : ∀ (evs : List Event) (st : Option (Nat × Int × Bool)), OneCopy lower q evs →
+    evs.foldl (trackStep lower q) (decode st) = decode (evs.foldl (scanStep lower q) st) := by
+  intro evs
+  induction evs with
+  | nil => intro st _; rfl
+  | cons ev rest ih =>
+    intro st hone
+    simp only [List.foldl_cons]
+    rw [step_decode q hq st ev (hone ev (by simp))]
+    exact ih _ (fun ev' hev' => hone ev' (by simp [hev']))
+
+/-- `track` through `scan` -/
+theorem track_scan (q : Rec) (hq : q.type = 12) (evs : List Event) (hone : OneCopy lower q evs) :
+    track lower q evs = decode (scan lower q evs) :=
+  foldl_decode q hq evs none hone
+
+theorem snoc_ind {α : Type} {P : List α → Prop} (hnil : P []) (hsnoc : ∀ l a, P l → P (l ++ [a])) : ∀ l, P l := by
+  intro l
+  rw [← List.reverse_reverse l]
+  induction l.reverse with
+  | nil => exact hnil
+  | cons a t ih => rw [List.reverse_cons]; exact hsnoc _ _ ih
+
+theorem scan_snoc (q : Rec) (l : List Event) (ev : Event) :
+    scan lower q (l ++ [ev]) = scanStep lower q (scan lower q l) ev := by
+  simp [scan, List.foldl_append]
+
+/-- the bit is set only by a purge at or after the expiry -/
+theorem scan_flag_purge (q : Rec) : ∀ (evs : List Event) (ttl : Nat) (t : Int),
+    scan lower q evs = some (ttl, t, true) → ∃ now, Event.purge now ∈ evs ∧ t + 1000 * (storedTtl 12 ttl : Int) ≤ now := by
+  intro evs
+  induction evs using snoc_ind with
+  | hnil => intro ttl t h; simp [scan] at h
+  | hsnoc l ev ih =>
+    intro ttl t h
+    rw [scan_snoc] at h
+    cases ev with
+    | datagram now recs =>
+      simp only [scanStep] at h
+      split at h
+      · obtain ⟨now', hm, hle⟩ := ih ttl t h
+        exact ⟨now', List.mem_append_left _ hm, hle⟩
+      · simp at h
+    | purge now =>
+      simp only [scanStep] at h
+      cases hs : scan lower q l with
+      | none => rw [hs] at h; simp at h
+      | some x =>
+        obtain ⟨ttl', t', p'⟩ := x
+        rw [hs] at h
+        simp only [Option.map_some, Option.some.injEq, Prod.mk.injEq, Bool.or_eq_true, Bool.and_eq_true, decide_eq_true_eq] at h
+        obtain ⟨rfl, rfl, hp⟩ := h
+        rcases hp with hp | ⟨_, hp⟩
+        · subst hp
+          obtain ⟨now', hm, hle⟩ := ih ttl' t' hs
+          exact ⟨now', List.mem_append_left _ hm, hle⟩
+        · exact ⟨now, by simp, hp⟩
+
+/-- in a history sorted in time, a purge at or after the expiry of the last copy sets the bit -/
+theorem scan_purge_flag (q : Rec) : ∀ (evs : List Event), evs.Pairwise (fun a b => evTime a ≤ evTime b) →
+    ∀ (ttl : Nat) (t : Int) (p : Bool), scan lower q evs = some (ttl, t, p) → 0 < ttl →
+    ∀ now, Event.purge now ∈ evs → t + 1000 * (storedTtl 12 ttl : Int) ≤ now → p = true := by
+  intro evs
+  induction evs using snoc_ind with
+  | hnil => intro _ ttl t p h; simp [scan] at h
+  | hsnoc l ev ih =>
+    intro hsorted ttl t p h hpos now hmem hle
+    rw [List.pairwise_append] at hsorted
+    obtain ⟨hsl, _, hlast⟩ := hsorted
+    rw [scan_snoc] at h
+    cases ev with
+    | datagram now' recs =>
+      simp only [scanStep] at h
+      have hml : Event.purge now ∈ l := by
+        rcases List.mem_append.mp hmem with hm | hm
+        · exact hm
+        · simp at hm
+      cases hc : copiesOf lower recs q with
+      | nil =>
+        rw [hc] at h
+        exact ih hsl ttl t p h hpos now hml hle
+      | cons r tl =>
+        rw [hc] at h
+        simp only [Option.some.injEq, Prod.mk.injEq] at h
+        obtain ⟨h1, h2, _⟩ := h
+        exfalso
+        have := hlast _ hml (Event.datagram now' recs) (by simp)
+        simp only [evTime] at this
+        have hS : 0 < storedTtl 12 ttl := by
+          unfold storedTtl; split <;> omega
+        have e2 : (t : Int) = now' := h2.symm
+        have a1 : (now : Int) ≤ now' := this
+        have a2 : (t : Int) + 1000 * (storedTtl 12 ttl : Int) ≤ now := hle
+        omega
+    | purge now' =>
+      simp only [scanStep] at h
+      cases hs : scan lower q l with
+      | none => rw [hs] at h; simp at h
+      | some x =>
+        obtain ⟨ttl', t', p'⟩ := x
+        rw [hs] at h
+        simp only [Option.map_some, Option.some.injEq, Prod.mk.injEq] at h
+        obtain ⟨rfl, rfl, hp⟩ := h
+        rcases List.mem_append.mp hmem with hm | hm
+        · have := ih hsl ttl' t' p' hs hpos now hm hle
+          rw [← hp, this]; rfl
+        · simp only [List.mem_singleton, Event.purge.injEq] at hm
+          subst hm
+          rw [← hp]
+          simp [hpos, hle]
+
+end
+
+theorem effTtl_stored (ttl : Nat) (h : 0 < ttl) : Link.effTtl Link.Cfg.paper ttl = 1000 * (storedTtl 12 ttl : Int) := by
+  unfold Link.effTtl storedTtl
+  show ((max ttl 1125 : Nat) : Int) * 1000 = _
+  split
+  · rename_i hc
+    have : max ttl 1125 = 1125 := Nat.max_eq_right (by omega)
+    rw [this]; omega
+  · rename_i hc
+    have : max ttl 1125 = ttl := Nat.max_eq_left (by omega)
+    rw [this]; omega
+
+/-- **C05/C06's expiry semantics in link terms** — the `cache` clause of `CacheRun` — from: the last PTR the link trace shows the
+host processing is the last datagram of the history with a copy of the pointer record (`hagree`); at most one copy per datagram;
+the history is sorted in time and does not go beyond `T`; and the periodic purge: after any instant `x ≥ tb` a purge within one
+cleanup period (`hpurge`; the purge at the browser's creation `tb` covers expiries before it). -/
+theorem cache_clause (lower : String → String) (p : Link.Trace) (h : Nat) (s : Link.Svc) (T tb : Int) (q : Rec) (hq : q.type = 12)
+    (pre evsT : List Event) (hone : OneCopy lower q (pre ++ [Event.purge tb] ++ evsT))
+    (hsorted : (pre ++ [Event.purge tb] ++ evsT).Pairwise (fun a b => evTime a ≤ evTime b))
+    (htimes : ∀ ev ∈ pre ++ [Event.purge tb] ++ evsT, evTime ev ≤ T)
+    (hagree : Link.lastSome (Link.heldEv h s) p = (scan lower q (pre ++ [Event.purge tb] ++ evsT)).map fun x => (x.1, x.2.1))
+    (hpurge : ∀ x, tb ≤ x → x + 10000 ≤ T → ∃ now, x ≤ now ∧ Event.purge now ∈ evsT) :
+    (Link.heldFresh Link.Cfg.paper p h s T = true → (track lower q (pre ++ [Event.purge tb] ++ evsT)).isSome = true) ∧
+    ((track lower q (pre ++ [Event.purge tb] ++ evsT)).isSome = true → Link.heldGrace Link.Cfg.paper p h s T = true) := by
+  rw [track_scan q hq _ hone]
+  unfold Link.heldFresh Link.heldGrace Link.held Link.unexpired
+  rw [hagree]
+  cases hs : scan lower q (pre ++ [Event.purge tb] ++ evsT) with
+  | none => simp [decode]
+  | some x =>
+    obtain ⟨ttl, t, pf⟩ := x
+    simp only [Option.map_some, decode, Bool.and_eq_true, decide_eq_true_eq]
+    constructor
+    · rintro ⟨hpos, hun⟩
+      have hpf : pf = false := by
+        cases pf with
+        | false => rfl
+        | true =>
+          exfalso
+          obtain ⟨now, hm, hle⟩ := scan_flag_purge q _ ttl t hs
+          have := htimes _ hm
+          simp only [evTime] at this
+          rw [effTtl_stored ttl hpos] at hun
+          have a1 : (now : Int) ≤ T := this
+          have a2 : (t : Int) + 1000 * (storedTtl 12 ttl : Int) ≤ now := hle
+          have a3 : T < (t : Int) + 1000 * (storedTtl 12 ttl : Int) + 0 := hun
+          omega
+      simp [hpos, hpf]
+    · intro hsome
+      have hcond : 0 < ttl ∧ pf = false := by
+        by_cases hc : 0 < ttl ∧ pf = false
+        · exact hc
+        · rw [if_neg hc] at hsome; cases hsome
+      obtain ⟨hpos, hpf⟩ := hcond
+      refine ⟨hpos, ?_⟩
+      rw [effTtl_stored ttl hpos]
+      show T < t + 1000 * (storedTtl 12 ttl : Int) + 10000
+      apply Int.lt_of_not_ge
+      intro hge
+      -- a purge at or after the expiry
+      have hex : ∃ now, Event.purge now ∈ pre ++ [Event.purge tb] ++ evsT ∧ t + 1000 * (storedTtl 12 ttl : Int) ≤ now := by
+        by_cases hx : tb ≤ t + 1000 * (storedTtl 12 ttl : Int)
+        · obtain ⟨now, h1, h2⟩ := hpurge _ hx (by omega)
+          exact ⟨now, List.mem_append_right _ h2, h1⟩
+        · exact ⟨tb, by simp, by
+            show (t : Int) + 1000 * (storedTtl 12 ttl : Int) ≤ tb
+            have : ¬ (tb : Int) ≤ (t : Int) + 1000 * (storedTtl 12 ttl : Int) := hx
+            omega⟩
+      obtain ⟨now, hm, hle⟩ := hex
+      have := scan_purge_flag q _ hsorted ttl t pf hs hpos now hm hle
+      rw [hpf] at this
+      cases this
+
+/-- `CacheRun` with its `cache` clause replaced by what it follows from: the PTRs the link trace shows the host processing are the
+datagrams of the history that carry a copy of the pointer record (`dlv`, instant by instant); at most one copy per datagram; the
+history is sorted in time; and the periodic purge runs: after any instant `x ≥ tb` there is a purge within one cleanup period -/
+structure CacheRunFine (tr : Link.Trace) (tb : Int) (b : Link.Br) : Prop where
+  ex : ∃ (lower : String → String) (possible : String → List String) (types : List String) (tyName : String)
+      (aliasOf : Link.Svc → String) (pre evs : List Event),
+    tyName ∈ types ∧ WFHistory lower possible types pre evs ∧
+    (∀ s, NoFlush lower (ptrRec tyName (aliasOf s)) (pre ++ [Event.purge tb] ++ evs)) ∧
+    (∀ T s, tb ≤ T → Link.neverClosed (tr.filter fun e => e.t ≤ T) b.host = true → s.ty = b.ty →
+      Link.live (tr.filter fun e => e.t ≤ T) b s
+        = reportedLive lower (browserRunFrom lower possible pre tb types (cut T evs)).batches tyName (aliasOf s)) ∧
+    (∀ T s, tb ≤ T → Link.neverClosed (tr.filter fun e => e.t ≤ T) b.host = true → s.ty ≠ b.ty →
+      Link.live (tr.filter fun e => e.t ≤ T) b s = false) ∧
+    (∀ s, OneCopy lower (ptrRec tyName (aliasOf s)) (pre ++ [Event.purge tb] ++ evs)) ∧
+    (pre ++ [Event.purge tb] ++ evs).Pairwise (fun x y => evTime x ≤ evTime y) ∧
+    (∀ T s, tb ≤ T → Link.neverClosed (tr.filter fun e => e.t ≤ T) b.host = true → s.ty = b.ty →
+      Link.lastSome (Link.heldEv b.host s) (tr.filter fun e => e.t ≤ T)
+        = (scan lower (ptrRec tyName (aliasOf s)) (pre ++ [Event.purge tb] ++ cut T evs)).map fun x => (x.1, x.2.1)) ∧
+    (∀ x T, tb ≤ x → x + 10000 ≤ T → Link.neverClosed (tr.filter fun e => e.t ≤ T) b.host = true →
+      ∃ now, x ≤ now ∧ now ≤ T ∧ Event.purge now ∈ evs)
+
+theorem CacheRun_of_fine (tr : Link.Trace) (tb : Int) (b : Link.Br) (h : CacheRunFine tr tb b) : CacheRun tr tb b := by
+  obtain ⟨lower, possible, types, tyName, aliasOf, pre, evs, hty, hwf, hnf, hcb, hother, hone, hsorted, hdlv, hpurge⟩ := h.ex
+  refine ⟨⟨lower, possible, types, tyName, aliasOf, pre, evs, hty, hwf, hnf, hcb, hother, ?_⟩⟩
+  intro T s hT hopen hs
+  have hsub : (pre ++ [Event.purge tb] ++ cut T evs).Sublist (pre ++ [Event.purge tb] ++ evs) :=
+    List.Sublist.append (List.Sublist.refl _) List.filter_sublist
+  apply cache_clause lower _ b.host s T tb (ptrRec tyName (aliasOf s)) rfl pre (cut T evs)
+  · intro ev hev
+    exact hone s ev (hsub.subset hev)
+  · exact hsorted.sublist hsub
+  · intro ev hev
+    rcases List.mem_append.mp hev with hev | hev
+    · rcases List.mem_append.mp hev with hev | hev
+      · have hp := hsorted
+        rw [List.append_assoc, List.pairwise_append] at hp
+        have := hp.2.2 ev hev (Event.purge tb) (by simp)
+        simp only [evTime] at this ⊢
+        omega
+      · simp only [List.mem_singleton] at hev
+        subst hev
+        exact hT
+    · have := (List.mem_filter.mp hev).2
+      simpa using this
+  · exact hdlv T s hT hopen hs
+  · intro x hx hxT
+    obtain ⟨now, h1, h2, h3⟩ := hpurge x T hx hxT hopen
+    exact ⟨now, h1, List.mem_filter.mpr ⟨h3, decide_eq_true h2⟩⟩
 
 end Zc.Bridge
